@@ -225,6 +225,9 @@ type GenOpts struct {
 	MaxRows    int
 	NoBadTurns bool // only emit/finish turns
 	Pad        int
+	// Unsealable: a failing turn may be one that leaves the state
+	// unserialisable (a failure only where the state has to be sealed: HTTP)
+	Unsealable bool
 	NoHook     bool // some states come without a cancel hook
 }
 
@@ -262,6 +265,9 @@ func GenStreamScript(t *simkern.Tape, nonce int64, kind string, o GenOpts) *Scri
 			acts := []string{"error", "panic", "noemit", "double", "emitpanic", "emiterror"}
 			if kind == "exchange" {
 				acts = append(acts, "finishx")
+			}
+			if o.Unsealable {
+				acts = append(acts, "emitunsealable", "emitunsealable")
 			}
 			st.Act = acts[t.Draw(len(acts))]
 			switch st.Act {
